@@ -61,7 +61,21 @@ fn render(class: &str, tape: &[u8]) -> String {
 fn case(class: &str, tape: &[u8], _strict: bool) -> Outcome {
     let p = decode(class, tape);
     let det = p.det_seed;
-    match vcommon::with_det_seed(det, 1 << 23, move || run(&p)) {
+    let debug = std::env::var_os("VAPI_DEBUG").is_some();
+    let start = std::time::Instant::now();
+    if std::env::var_os("VAPI_DEBUG_TAPES").is_some() {
+        eprintln!("[tape] {} {}", class, vcommon::hex(tape));
+    }
+    let res = vcommon::with_det_seed(det, 1 << 21, move || run(&p));
+    if debug {
+        let ms = start.elapsed().as_millis();
+        match &res {
+            Ok(Outcome::Fail(f)) => eprintln!("[debug] {} ms FAIL {} tape={}", ms, f.signature, vcommon::hex(tape)),
+            Ok(_) if ms > 100 => eprintln!("[debug] {} ms pass tape={}", ms, vcommon::hex(tape)),
+            _ => {}
+        }
+    }
+    match res {
         Ok(o) => o,
         Err(_) => {
             let p = vcommon::last_panic_any_thread();
